@@ -221,10 +221,10 @@ func (c *Core) VerifHandle(cs cla.ConvergenceStatus) {
 	}
 }
 
-// VerifProphetLive returns the live map of the node's own predictabilities (for identity tracking only).
-func VerifProphetLive(a Algorithm) map[bpv7.EndpointID]float64 {
+// VerifProphetLive returns the live maps of the node's own and the peers' predictabilities (for identity tracking only).
+func VerifProphetLive(a Algorithm) (own map[bpv7.EndpointID]float64, peers map[bpv7.EndpointID]map[bpv7.EndpointID]float64) {
 	if p, ok := VerifUnwrap(a).(*Prophet); ok {
-		return p.predictabilities
+		return p.predictabilities, p.peerPredictabilities
 	}
-	return nil
+	return nil, nil
 }
